@@ -556,6 +556,9 @@ func scenarios() []hx.Scenario {
 						// five threads: two preemptions everywhere is thorough-tier work
 						sc.QuickMin, sc.QuickBound = hx.Ptr(1), hx.Ptr(2)
 						sc.Shards = 8
+						if cc {
+							sc.Shards = 24 // the heaviest: a cancelled Ready beside two getters
+						}
 					}
 					out = append(out, sc)
 				}
